@@ -319,6 +319,10 @@ class Result:
                 self.coverage[k] = str(self.coverage[k])
         if level == "proof" and not self.coverage.get("obligations"):
             level = "exploration"     # no theorem stated (yet) for this property: the run is a search, say so
+        if level == "proof" and self.coverage.get("discharged") != self.coverage.get("obligations") and not self.violations:
+            # a proof-level run in which not every obligation was discharged never ends quietly, whatever the check's own decision code did
+            self.violation("theorem", dict(what="proof obligations not all discharged", obligations=self.coverage.get("obligations"),
+                                           discharged=self.coverage.get("discharged")), no_input=True)
         ev = dict(property_id=self.prop, tier=self.tier, seed=self.seed, level=level,
                   coverage=self.coverage, assumptions=self.assumptions,
                   wall_s=round(time.time() - self.t0, 2), violations=len(self.violations))
